@@ -23,4 +23,55 @@ def lastWrite (ops : List (Op α β)) (k : α) : Option β :=
     | .del k' => if k' = k then none else acc
     | .get _ => acc) none
 
+/-- **C17 (refinement).**  From the zero-initialised map, no history of puts, deletes and
+    lookups ever reaches an abort site (`unreachable()`, a failed `assert`, a rehash
+    nested in a rehash); every lookup answers exactly like the abstract last-write-wins
+    dictionary; and the final table denotes the final abstract dictionary. -/
+theorem C17_refines (h : α → Nat) (ops : List (Op α β)) :
+    ∃ s, run h HM.empty ops = .ok (s, (arun AMap.empty ops).2) ∧
+      ∀ k, absGet s k = (arun AMap.empty ops).1.get k := by
+  obtain ⟨s, hs, _, habs⟩ := run_refines h ops HM.empty AMap.empty (Inv_empty h)
+    (fun k => by rw [absGet_of_length_zero rfl, AMap.get_empty])
+  exact ⟨s, hs, habs⟩
+
+/-- **C17 (no abort).**  Corollary of `C17_refines`. -/
+theorem C17_never_aborts (h : α → Nat) (ops : List (Op α β)) :
+    ∃ r, run h HM.empty ops = .ok r := by
+  obtain ⟨s, hs, _⟩ := C17_refines h ops
+  exact ⟨_, hs⟩
+
+/-- **C17 (user-level wording).**  After any history, looking `k` up yields what the most
+    recent operation on `k` left: the value of the last `put k`, or nothing if the last
+    operation on `k` was a delete or `k` was never put. -/
+theorem C17_last_write_wins (h : α → Nat) (ops : List (Op α β)) (k : α) :
+    ∃ s outs, run h HM.empty (ops ++ [Op.get k]) = .ok (s, outs) ∧
+      outs.getLast? = some (lastWrite ops k) := by
+  obtain ⟨s, hs, _⟩ := C17_refines h (ops ++ [Op.get k])
+  refine ⟨s, _, hs, ?_⟩
+  rw [arun_append]
+  simp only [arun, List.getLast?_concat]
+  rw [arun_get_eq_foldl]
+  rfl
+
+/-- **C17 (lookup is right in every invariant-satisfying table).** -/
+theorem C17_get_agrees_with_state (h : α → Nat) (m : HM α β) (k : α) :
+    Inv h m → HM.get h m k = .ok (absGet m k) :=
+  fun hinv => hinv.get_eq k
+
+/-- The hypothesis `Inv` of `C17_get_agrees_with_state` is satisfiable on a non-trivial
+    state: every key hashes to 5; key 9 was stored at slot 5 and later deleted (a
+    tombstone), key 12 is displaced to slot 6 behind the tombstone, key 20 to slot 7;
+    `used = 3` counts the tombstone. -/
+example : Inv (fun _ : Nat => 5)
+    (⟨[.empty, .empty, .empty, .empty, .empty, .tomb, .full 12 2, .full 20 7,
+       .empty, .empty, .empty, .empty, .empty, .empty, .empty, .empty], 3⟩ : HM Nat Nat) := by
+  decide
+
+/-- … and the lookups in that state are the expected ones (through the theorem). -/
+example : HM.get (fun _ : Nat => 5)
+    (⟨[.empty, .empty, .empty, .empty, .empty, .tomb, .full 12 2, .full 20 7,
+       .empty, .empty, .empty, .empty, .empty, .empty, .empty, .empty], 3⟩ : HM Nat Nat) 12
+    = .ok (some 2) :=
+  C17_get_agrees_with_state _ _ 12 (by decide)
+
 end ChibiVerif.Props.C17
